@@ -155,6 +155,33 @@ def recovery_blocked_by_stale_message(sig, ctx) -> bool:
     return False
 
 
+def concurrent_sweep_stale_requeue(sig, ctx) -> bool:
+    """A recovery sweep that runs CONCURRENTLY with the handlers decides from the rows it read at its start; handlers
+    complete the task's iteration in between, a jump re-arms the stage and the task is RUNNING again when the sweep
+    pushes its (stale) RunTask: the task body runs an extra time in the new iteration."""
+    if ctx["formula"] not in sig["formulas"]:
+        return False
+    prog = ctx["program"]
+    if not any(t["k"] in ("jump", "jump2", "jumpafter") for s in prog["stages"] for t in s["tasks"]):
+        return False
+    tr = ctx.get("trace")
+    if not tr:
+        return False
+    inside, handled = False, 0
+    for e in tr["events"]:
+        if e["e"] == "sweepsnap":
+            inside, handled = True, 0
+        elif e["e"] == "sweeppush":
+            if inside and handled >= 1:
+                new = [m for m in e["s"]["q"] if m["typ"] == "RunTask"]
+                if new:
+                    return True
+            inside = False
+        elif inside and e["e"] == "hret":
+            handled += 1
+    return False
+
+
 def late_branch_kill(sig, ctx) -> bool:
     """A fired first-of / quorum join stage marked TERMINAL by the wait-retry exhaustion of the
     StartStage its late branch sent."""
@@ -203,5 +230,6 @@ PREDICATES = {
     "race_formula": race_formula,
     "jump_after_cancel": jump_after_cancel,
     "recovery_blocked_by_stale_message": recovery_blocked_by_stale_message,
+    "concurrent_sweep_stale_requeue": concurrent_sweep_stale_requeue,
     "always": always,
 }
